@@ -223,7 +223,7 @@ def overlayImpl (lower upper : Impl) : Impl where
       | (ls1, us1, some l) => ((ls1, us1, del), .refs l)
       | (ls1, us1, none) => ((ls1, us1, del), .err)
 
-/-! ## two-way shard, replica, cond and union -/
+/-! ## two-way shard, replica, cond (the n-way shard and replica: next section) -/
 
 /-- merged enumeration of two sub-stores (MergedEnumerateStorage, mergedenum.go:38) -/
 def enum2 (a b : Impl) (sa : a.σ) (sb : b.σ) (after : Bytes) (limit : Nat) : a.σ × b.σ × Out :=
@@ -303,6 +303,118 @@ def cond2Impl (isSchema : Bytes → Bool) (t e : Impl) : Impl where
         | (se1, o) => ((st, se1), o)
     | op => (replica2Impl t e).step (st, se) op
 
+/-! ## n-way shard and replica, directly over the list of sub-stores
+
+shard.go and replica.go keep their sub-stores in a slice and loop over it; these are those loops.
+`Lemmas/RefNary.lean` proves that they refine the reference map whenever every sub-store does, and
+`Lemmas/MergedNest.lean` that their ONE n-way merged enumeration is the nested two-way one – which is
+why a configuration tree only needs two-way nodes (`Cfg.shardNest`, `Cfg.replicaNest`). -/
+
+/-- the states of a list of sub-stores -/
+def KidsSt : List Impl → Type
+  | [] => Unit
+  | k :: r => k.σ × KidsSt r
+
+def kidsInit : (kids : List Impl) → KidsSt kids
+  | [] => ()
+  | k :: r => (k.init, kidsInit r)
+
+/-- one call on sub-store number `i` (`sto.shards[i]`, shard.go:70); no such sub-store: an error -/
+def stepAt : (kids : List Impl) → KidsSt kids → Nat → Op → KidsSt kids × Out
+  | [], s, _, _ => (s, .err)
+  | k :: _, (sk, sr), 0, op =>
+    match k.step sk op with
+    | (sk1, o) => ((sk1, sr), o)
+  | _ :: r, (sk, sr), i + 1, op =>
+    match stepAt r sr i op with
+    | (sr1, o) => ((sk, sr1), o)
+
+/-- the same call on every sub-store (replica.go ReceiveBlob / StatBlobs / RemoveBlobs start one
+goroutine per replica and collect every answer): the answers, in sub-store order -/
+def stepAll : (kids : List Impl) → KidsSt kids → Op → KidsSt kids × List Out
+  | [], s, _ => (s, [])
+  | k :: r, (sk, sr), op =>
+    match k.step sk op, stepAll r sr op with
+    | (sk1, o), (sr1, os) => ((sk1, sr1), o :: os)
+
+/-- what the sources of `MergedEnumerateStorage(ctx, dest, stores, after, limit)` send
+(mergedenum.go:73: every source is started with the same cursor and limit); `none` when a source
+fails ("If any part returns an error, we return an error") -/
+def enumAll : (kids : List Impl) → KidsSt kids → Bytes → Nat → KidsSt kids × Option (List (List (Bytes × Nat)))
+  | [], s, _, _ => (s, some [])
+  | k :: r, (sk, sr), after, limit =>
+    match k.step sk (.enum after limit), enumAll r sr after limit with
+    | (sk1, .refs x), (sr1, some l) => ((sk1, sr1), some (x :: l))
+    | (sk1, _), (sr1, _) => ((sk1, sr1), none)
+
+/-- EnumerateBlobs of shard (shard.go:152) and replica (replica.go:276): ONE n-way merge -/
+def enumN (kids : List Impl) (s : KidsSt kids) (after : Bytes) (limit : Nat) : KidsSt kids × Out :=
+  match enumAll kids s after limit with
+  | (s1, some srcs) => (s1, .refs (MergedEnum.mergedEnumerate limit srcs))
+  | (s1, none) => (s1, .err)
+
+/-- shard over any number of sub-stores: `route k % len(shards)` picks the sub-store (shard.go:74,
+`route` = `Sum32` of the ref) -/
+def shardNImpl (route : Bytes → Nat) (kids : List Impl) : Impl where
+  σ := KidsSt kids
+  init := kidsInit kids
+  step := fun s op =>
+    match op with
+    | .enum after limit => enumN kids s after limit
+    | .recv k _ | .fetch k | .stat k | .rm k => stepAt kids s (route k % kids.length) op
+
+/-- the loop of replica.go Fetch (:146-165): the first replica that has the blob answers; `failed` =
+`failErr != nil`, a failure seen so far outranks "not exist" -/
+def fetchFirst : (kids : List Impl) → KidsSt kids → Bytes → Bool → KidsSt kids × Out
+  | [], s, _, failed => (s, if failed then .err else .notExist)
+  | k :: r, (sk, sr), key, failed =>
+    match k.step sk (.fetch key) with
+    | (sk1, .bytes v) => ((sk1, sr), .bytes v)
+    | (sk1, .notExist) =>
+      match fetchFirst r sr key failed with
+      | (sr1, o) => ((sk1, sr1), o)
+    | (sk1, _) =>
+      match fetchFirst r sr key true with
+      | (sr1, o) => ((sk1, sr1), o)
+
+/-- StatBlobs of replica (replica.go:168-203): any replica's error fails the call (errgroup),
+otherwise the first replica reporting the blob wins -/
+def statAnsN : List Out → Out
+  | [] => .notExist
+  | .sized n :: os => match statAnsN os with | .err => .err | _ => .sized n
+  | .notExist :: os => statAnsN os
+  | _ :: _ => .err
+
+/-- replica over any number of sub-stores, all read and written, `minWritesForSuccess` = their number
+(the default): receive succeeds iff every replica stored the full blob (replica.go:233), remove is
+"best effort": nil as soon as ANY replica reported success (replica.go:266) -/
+def replicaNImpl (kids : List Impl) : Impl where
+  σ := KidsSt kids
+  init := kidsInit kids
+  step := fun s op =>
+    match op with
+    | .recv _ v =>
+      match stepAll kids s op with
+      | (s1, os) => (s1, if os.all (· == .sized v.length) then .sized v.length else .err)
+    | .fetch k => fetchFirst kids s k false
+    | .stat _ =>
+      match stepAll kids s op with
+      | (s1, os) => (s1, statAnsN os)
+    | .rm _ =>
+      match stepAll kids s op with
+      | (s1, os) => (s1, if os.any (· == .ok) then .ok else .err)
+    | .enum after limit => enumN kids s after limit
+
+/-- the right-nested tree of two-way shards that an n-way shard is: level `i` keeps the keys of
+sub-store `i` and passes the others on -/
+def shardNestImpl (route : Bytes → Nat) (n : Nat) : Nat → Impl → List Impl → Impl
+  | _, k, [] => k
+  | i, k, k' :: r => shard2Impl (fun key => route key % n != i) k (shardNestImpl route n (i + 1) k' r)
+
+def replicaNestImpl : Impl → List Impl → Impl
+  | k, [] => k
+  | k, k' :: r => replica2Impl k (replicaNestImpl k' r)
+
 /-! ## configuration trees -/
 
 /-- a storage configuration: which combinators wrap which leaves -/
@@ -313,12 +425,14 @@ inductive Cfg where
   | proxy (origin cache : Cfg) (max : Nat)
   | overlay (lower upper : Cfg)
   | shard2 (a b : Cfg)
+  | shardBy (r : Bytes → Bool) (a b : Cfg) -- two-way shard with its OWN routing predicate: one level of an n-way shard
   | replica2 (a b : Cfg)
   | cond2 (t e : Cfg)
   | faulty (sched : List Fault) (c : Cfg) -- `c` behind a schedule of transient failures (C13)
   | leaf (I : Impl)                       -- any other leaf model (files, diskpacked, …) given directly
 
-/-- the model of a configuration; `route` = shard routing, `isSchema` = cond's sniffing predicate -/
+/-- the model of a configuration; `route` = routing of the `shard2` nodes (a `shardBy` node carries
+its own), `isSchema` = cond's sniffing predicate -/
 def interp (route : Bytes → Bool) (isSchema : Bytes → Bool) : Cfg → Impl
   | .mem => memImpl
   | .memCache max => memCacheImpl max
@@ -326,6 +440,7 @@ def interp (route : Bytes → Bool) (isSchema : Bytes → Bool) : Cfg → Impl
   | .proxy o c max => proxyImpl (interp route isSchema o) (interp route isSchema c) max
   | .overlay l u => overlayImpl (interp route isSchema l) (interp route isSchema u)
   | .shard2 a b => shard2Impl route (interp route isSchema a) (interp route isSchema b)
+  | .shardBy r a b => shard2Impl r (interp route isSchema a) (interp route isSchema b)
   | .replica2 a b => replica2Impl (interp route isSchema a) (interp route isSchema b)
   | .cond2 t e => cond2Impl isSchema (interp route isSchema t) (interp route isSchema e)
   | .faulty sched c => faultLeaf (interp route isSchema c) sched
@@ -340,9 +455,21 @@ def Cfg.WF : Cfg → Bool
   | .proxy o c _ => o.WF && c.WF
   | .overlay l u => l.WF && u.WF
   | .shard2 a b => a.WF && b.WF
+  | .shardBy _ a b => a.WF && b.WF
   | .replica2 a b => a.WF && b.WF
   | .cond2 t e => t.WF && e.WF
   | .faulty _ _ => false
   | .leaf _ => false
+
+/-- an n-way shard over `k :: r` (n = their number, routing `sum key % n`) as a tree: sub-store `i`
+against the rest, for i = 0, 1, … -/
+def Cfg.shardNest (sum : Bytes → Nat) (n : Nat) : Nat → Cfg → List Cfg → Cfg
+  | _, k, [] => k
+  | i, k, k' :: r => .shardBy (fun key => sum key % n != i) k (Cfg.shardNest sum n (i + 1) k' r)
+
+/-- an n-way replica over `k :: r` as a tree -/
+def Cfg.replicaNest : Cfg → List Cfg → Cfg
+  | k, [] => k
+  | k, k' :: r => .replica2 k (Cfg.replicaNest k' r)
 
 end Pk.Stores
